@@ -20,6 +20,14 @@ let nat s = nat_of_int (int_of_string ("0x" ^ s))
    lusing <fixed> <bytes>           the pre-repair using: ok | err | oob
    (the type token only tells the Rust executor which message type to use)   *)
 let run_frame (toks : string list) : string =
+  (* "echo@<n>" / "rpc@<n>" / "status@<n>": the same exchange with the transport delivering the
+     request and reply bodies in pieces of <n> bytes without a length hint; the model has no
+     notion of pieces - what is delivered is the concatenation *)
+  let toks =
+    match toks with
+    | k :: rest when String.contains k '@' -> String.sub k 0 (String.index k '@') :: rest
+    | _ -> toks
+  in
   match toks with
   | [ "crc"; _; b ] -> h (Model.crc32 (bytes_of_hex b))
   | [ "frame"; _; b ] -> hex_of_bytes (Model.frame (bytes_of_hex b))
